@@ -453,16 +453,17 @@ Proof.
   apply nth_upd_inv in Hj. destruct Hj as [[N Hj]|[Eij [t1 [Hj Et]]]]; [|subst j t'].
   - rewrite nth_upd_other in Hj by auto. destruct (H j t' Hj) as (H1 & H2 & H3 & H4).
     rewrite pend_of_cons_other in * by auto.
-    repeat split; auto.
+    split; [exact H1|]. split; [|split; [|exact H4]].
     + intros [Hin|Hin]; [congruence|auto].
     + intros Hn Hnin. apply H3; auto. intros Hin. apply Hnin. right; auto.
   - apply nth_upd_inv in Hj. destruct Hj as [[N _]|[_ [t [Hj Et]]]]; [congruence|subst t1].
     destruct (H i t Hj) as (H1 & H2 & H3 & H4). rewrite pend_of_cons_same in *.
     assert (Hl : fin t = Live).
-    { destruct (fin t) eqn:Ef; auto; exfalso; assert (r :: pend_of i rest = []) by (apply H3; auto; congruence); discriminate. }
+    { destruct (fin t) eqn:Ef; auto; exfalso;
+        assert (r :: pend_of i rest = []) by (apply H3; auto; congruence); discriminate. }
     assert (Hs : seen t = length (log t)) by (apply H4; auto; right; discriminate).
     destruct (Hf t Hj Hl Hs (tinv_deliver _ _ _ H1 Hl)) as (G1 & G2).
-    repeat split; auto.
+    split; [apply G2|]. split; [intros _; exact G1|]. split.
     + intros _ Hnin. exfalso. apply Hnin. left; auto.
     + intros _ Hl'. congruence.
 Qed.
@@ -485,11 +486,11 @@ Proof.
       apply mem_nat_In in Em. eapply IH; [|exact Hq|exact F].
       intros j t Hj. destruct (H j t Hj) as (H1 & H2 & H3 & H4).
       destruct (Nat.eq_dec i j) as [<-|N].
-      * specialize (H2 Em). repeat split; auto.
-        -- eapply tinv_pend_irrel; eauto.
+      * specialize (H2 Em). split; [eapply tinv_pend_irrel; eauto|]. split; [auto|]. split.
         -- intros _ Hn. contradiction.
         -- intros _ Hl. congruence.
-      * rewrite pend_of_cons_other in * by auto. repeat split; auto.
+      * rewrite pend_of_cons_other in * by auto.
+        split; [exact H1|]. split; [exact H2|]. split; [exact H3|exact H4].
     + assert (Hnd : ~ In i done) by (intros Hin; apply mem_nat_In in Hin; congruence).
       assert (Hq' : quiet_decs (snd (next_dec decs)) /\ (fst (fst (next_dec decs)) = PAUSE -> snd (fst (next_dec decs)) = 0)).
       { destruct decs as [|[d l] ds]; simpl; [split; [constructor|discriminate]|].
@@ -499,15 +500,15 @@ Proof.
       * (* CONTINUE *)
         eapply IH; [|exact Hq1|exact F].
         intros j t' Hj. apply nth_upd_inv in Hj. destruct Hj as [[N Hj]|[Eij [t [Hj Et]]]]; [|subst j t'].
-        -- destruct (H j t' Hj) as (H1 & H2 & H3 & H4). rewrite pend_of_cons_other in * by auto. repeat split; auto.
+        -- destruct (H j t' Hj) as (H1 & H2 & H3 & H4). rewrite pend_of_cons_other in * by auto.
+           split; [exact H1|]. split; [exact H2|]. split; [exact H3|exact H4].
         -- destruct (H i t Hj) as (H1 & H2 & H3 & H4). rewrite pend_of_cons_same in *.
            assert (Hl : fin t = Live).
            { destruct (fin t) eqn:Ef; auto; exfalso; assert (r :: pend_of i rest = []) by (apply H3; auto; congruence); discriminate. }
            assert (Hs : seen t = length (log t)) by (apply H4; auto; right; discriminate).
-           repeat split; auto.
-           ++ apply tinv_deliver; auto.
-           ++ intros Hin. contradiction.
+           split; [apply tinv_deliver; auto|]. split; [intros Hin; contradiction|]. split.
            ++ intros Hn. simpl in Hn. congruence.
+           ++ intros _ _. exact Hs.
       * (* PAUSE *)
         rewrite (Hq2 eq_refl) in F.
         eapply IH; [|exact Hq1|exact F].
@@ -522,6 +523,125 @@ Proof.
            intros p. apply status_eqb_eq in Es. rewrite (status_at_nth _ _ _ Hj) in Es.
            eapply tinv_stop_completed; eauto.
         -- apply LI_decide; auto.
-           intros t Hj Hl Hs Hd. split; [simpl; unfold t_stop, t_kill; destruct (proc (set_mark _ _)); simpl; discriminate|].
+           intros t Hj Hl Hs Hd. split; [simpl; discriminate|].
            intros p. eapply tinv_stop; eauto.
+Qed.
+
+(* ---- second loop: trials the poll showed as completed / failed ------------------------- *)
+Definition PI (ids : list nat) (ts : list tr) : Prop :=
+  forall j t, nth_error ts j = Some t ->
+    tinv t [] /\ (In j ids -> fin t = Live -> seen t = length (log t)).
+
+Lemma tinv_observe t : tinv t [] -> (fin t = Live -> seen t = length (log t)) -> tinv (t_observe t) [].
+Proof.
+  intros H Hs. unfold t_observe. destruct (fin t) eqn:Ef; auto.
+  pose proof (live_pre_ok _ _ H Ef) as Hpre. specialize (Hs eq_refl). revert H Hpre Hs Ef.
+  unfold tinv, pre_ok, em, status_of, set_fin.
+  destruct t as [lg td pr mk sn cs nr cu dc bs fn pa]; simpl. intros (Hb & Hse & Hc & Hso & Hcs & Hpt & Hpa & Hf) (Hpl & Hpd) Hs Ef.
+  subst fn. destruct Hf as (Hm & Hsn & Hd). subst mk. simpl in Hsn.
+  destruct pr; simpl; repeat split; auto.
+  rewrite (Hpt eq_refl) in Hc. rewrite app_nil_r in Hc. subst cu.
+  rewrite Hpd. apply firstn_all2. rewrite skipn_length. lia.
+Qed.
+
+Lemma observe_PI ids0 : forall ids ts, PI ids ts -> incl ids0 ids -> SI (observe ids0 ts).
+Proof.
+  induction ids0 as [|i r IH]; intros ids ts H Hin; simpl.
+  - intros j t Hj. apply (H j t Hj).
+  - apply (IH ids); [|intros x Hx; apply Hin; right; auto].
+    intros j t' Hj. apply nth_upd_inv in Hj. destruct Hj as [[N Hj]|[Eij [t [Hj Et]]]]; [apply (H j t' Hj)|subst j t'].
+    destruct (H i t Hj) as (H1 & H2). specialize (H2 (Hin i (or_introl eq_refl))).
+    split; [apply tinv_observe; auto|].
+    intros _ Hl. unfold t_observe in *. destruct (fin t) eqn:Ef; try (simpl in Hl; congruence).
+    destruct (status_of t); simpl in *; auto; congruence.
+Qed.
+
+(* ---- events ------------------------------------------------------------------------------ *)
+Definition good_ev (e : ev) : Prop :=
+  tuner_ev e = true /\
+  match e with
+  | Start reps => StronglySorted rle reps          (* worker time stamps of a run do not decrease *)
+  | Resume _ reps => StronglySorted rle reps
+  | Poll _ decs => quiet_decs decs                  (* no report in the window of a PAUSE *)
+  | _ => True
+  end.
+
+Lemma step_SI st e st' x : SI (trials st) -> good_ev e -> step Generic st e = (st', x) -> SI (trials st').
+Proof.
+  intros H (Ht & Hg) F. destruct e as [w|reps|i reps|ids decs|ids|i late|i late]; simpl in *; try discriminate.
+  - (* world *)
+    inversion F; subst; simpl. intros j t' Hj.
+    destruct w as [i k|i|i k]; simpl in Hj;
+      (apply nth_upd_inv in Hj; destruct Hj as [[N Hj]|[Eij [t [Hj Et]]]]; [apply (H j t' Hj)|subst j t']).
+    + apply tinv_emit. apply (H i t Hj).
+    + apply tinv_finish. apply (H i t Hj).
+    + apply tinv_fail. apply (H i t Hj).
+  - (* start_trial *)
+    inversion F; subst; simpl. intros j t Hj.
+    destruct (Nat.lt_ge_cases j (length (trials st))) as [L|L].
+    + rewrite nth_error_app1 in Hj by auto. apply (H j t Hj).
+    + rewrite nth_error_app2 in Hj by auto.
+      destruct (j - length (trials st)) as [|n]; simpl in Hj; [|destruct n; discriminate].
+      inversion Hj; subst. apply tinv_new; auto.
+  - (* resume_trial *)
+    destruct (nth_error (trials st) i) as [t|] eqn:E; [|inversion F; subst; auto].
+    destruct (status_eqb (cstat t) Paused) eqn:Es; [|inversion F; subst; auto].
+    apply status_eqb_eq in Es. inversion F; subst; simpl. intros j t' Hj.
+    apply nth_upd_inv in Hj. destruct Hj as [[N Hj]|[Eij [t0 [Hj Et]]]]; [apply (H j t' Hj)|subst j t'].
+    rewrite E in Hj. inversion Hj; subst t0. apply tinv_resume; auto. apply (H i t E).
+  - (* poll + _update_running_trials *)
+    destruct (ids_ok (trials st) ids); [|inversion F; subst; auto].
+    destruct (fetch_generic ids (trials st)) as [ts1 b] eqn:Ef.
+    destruct (update_loop Generic (sort_ts b) decs [] ts1 (out st)) as [[ts2 out2] done2] eqn:Eu.
+    inversion F; subst; simpl. clear F.
+    pose proof (fetch_generic_LI ids _ [] [] _ _ (SI_LI _ H) Ef) as L1. simpl in L1.
+    apply LI_sort in L1.
+    pose proof (update_loop_LI _ _ _ _ _ _ _ _ _ L1 Hg Eu) as L2.
+    apply (observe_PI ids ids); [|apply incl_refl].
+    intros j t Hj. destruct (L2 j t Hj) as (H1 & H2 & H3 & H4). split; [exact H1|].
+    intros Hin Hl. apply H4; auto.
+Qed.
+
+Lemma run_SI evs : forall st st' x,
+  SI (trials st) -> Forall good_ev evs -> run Generic st evs = (st', x) -> SI (trials st').
+Proof.
+  induction evs as [|e r IH]; intros st st' x H Hg F; simpl in F.
+  - inversion F; subst; auto.
+  - inversion Hg as [|? ? Hge Hgr]; subst.
+    destruct (step Generic st e) as [st1 [y|]] eqn:Es.
+    + inversion F; subst. eapply step_SI; eauto.
+    + eapply IH; [|exact Hgr|exact F]. eapply step_SI; eauto.
+Qed.
+
+Lemma init_SI : SI (trials init).
+Proof. intros [|j] t Hj; simpl in Hj; discriminate. Qed.
+
+(* ---- what the invariant says about every run ------------------------------------------------ *)
+Definition runs_of (t : tr) : list (list rep * list rep * fstat) := past t ++ [(cur t, dcur t, fin t)].
+
+Lemma tinv_runs_ok t : tinv t [] -> Forall run_ok (runs_of t).
+Proof.
+  intros H. pose proof H as (Hb & Hs & Hc & Hso & Hcs & Hpt & Hpa & Hf).
+  unfold runs_of. apply Forall_app. split; auto. constructor; [|constructor].
+  unfold run_ok; simpl. destruct (fin t) eqn:Ef.
+  - split; [|discriminate]. apply is_prefix_cur; auto. eapply live_pre_ok; eauto.
+  - split; [|discriminate]. apply is_prefix_cur; auto. apply Hf.
+  - destruct Hf as (_ & _ & _ & Hd). split; auto. exists (length (cur t)). rewrite Hd. symmetry. apply firstn_all.
+  - split; [|discriminate]. apply is_prefix_cur; auto. apply Hf.
+Qed.
+
+Theorem generic_prefix_once_ordered evs st x :
+  Forall good_ev evs -> run Generic init evs = (st, x) ->
+  forall i t, nth_error (trials st) i = Some t -> Forall run_ok (runs_of t).
+Proof.
+  intros Hg F i t Hi. apply tinv_runs_ok. eapply run_SI; eauto. apply init_SI.
+Qed.
+
+(* after a resume (and in the first run) the first delivered report is the run's first report *)
+Lemma run_ok_first r : run_ok r ->
+  snd (fst r) = [] \/ exists a dl rp, snd (fst r) = a :: dl /\ fst (fst r) = a :: rp.
+Proof.
+  intros ((k & Hk) & _). destruct (snd (fst r)) as [|a dl] eqn:E; auto. right.
+  destruct k; simpl in Hk; [discriminate|]. destruct (fst (fst r)) as [|a' rp]; simpl in Hk; [discriminate|].
+  inversion Hk; subst. eauto.
 Qed.
